@@ -188,6 +188,10 @@ class Core:
             st.facts = set()
             for p in keep:
                 st.note_fact(p)
+            # the unfoldings are re-stated for the heap as it is now
+            if self.cur is not None and self.cur.heap_axioms and preserves:
+                for a in self.cur.heap_axioms(self, st):
+                    st.assume(a)
 
     def val(self, st, v):
         """content value of a container: the value itself if immutable, else the $val slot."""
